@@ -340,3 +340,45 @@ def r18e(model: Model, rr: RuleResult):
         rr.ok("both branches save to output_file")
     else:
         rr.bad(fi, fi.node, "_write no longer saves the ufo / ttfont to output_file in both branches", construct="_write: save calls")
+
+
+@RULES.rule("C18", "R18f", "axis defaults and master positions are carried as written (no integer coercion); master UFO libs reach the variable-font compiler unaltered", floor=3)
+def r18f(model: Model, rr: RuleResult):
+    from ..dataflow import inline_new_helpers
+    lfi = model.func("config", "load")
+    n = 0
+    for c in calls_in(lfi, nested=True):
+        if callee_tail(c) not in ("Axis", "AxisPosition"):
+            continue
+        for a in list(c.args) + [k.value for k in c.keywords]:
+            a2 = inline_new_helpers(a, lfi, depth=3)
+            coerced = [x for x in ast.walk(a2) if isinstance(x, ast.Call) and norm(x.func) in ("int", "round", "math.floor", "math.trunc", "otRound")]
+            from .. import report as _rep18
+            helper = model.resolve_call(lfi, a) if isinstance(a, ast.Call) else None
+            if helper is not None and not isinstance(helper.node, ast.Lambda) and _rep18.CURRENT_DRIFT.get(helper.fq, 0) is None:
+                coerced += [x for x in ast.walk(helper.node) if isinstance(x, ast.Call) and norm(x.func) in ("int", "round", "math.floor", "math.trunc", "otRound")]
+            n += 1
+            if coerced:
+                rr.bad(lfi, c, f"{callee_tail(c)}(...) receives `{short(a, 60)}`, which passes the configured number through `{short(coerced[0], 40)}`: axis values are floats (wdth 62.5, "
+                       f"112.5), so a truncated master position puts the master somewhere else on the axis and evaluating the font at the real position interpolates", construct=f"config.load: {callee_tail(c)} value coerced to an integer")
+            else:
+                rr.ok(f"config.load: {callee_tail(c)}({short(a, 40)}) carried as written")
+    if n < 3:
+        raise AnalysisError(f"R18f: only {n} axis values found in config.load")
+    wm = model.mod("write_variable_font")
+    stores = []
+    for f_ in wm.functions.values():
+        if isinstance(f_.node, ast.Lambda):
+            continue
+        for x in ast.walk(f_.node):
+            if isinstance(x, (ast.Assign, ast.AugAssign, ast.Delete)):
+                tg = x.targets if isinstance(x, (ast.Assign, ast.Delete)) else [x.target]
+                for t in tg:
+                    if isinstance(t, ast.Subscript) and ".lib" in norm(t.value):
+                        stores.append((f_, x))
+    if stores:
+        f_, x = stores[0]
+        rr.bad(f_, x, f"write_variable_font changes a master UFO before compiling (`{short(x, 80)}`): the variable font is then built from something else than the static build of that master "
+               f"(clip boxes, layers, metrics recorded by write_font for the master alone)", construct=f"{f_.qualname}: master UFO modified before compileVariableTTF")
+    else:
+        rr.ok("write_variable_font hands the master UFOs to the compiler as write_font wrote them")
